@@ -12,6 +12,7 @@ def run(ctx):
     enum(ctx)
     resolve_discipline(ctx)
     attribute_scans(ctx)
+    attribute_table(ctx)
 
 
 def fb(ctx):
@@ -449,3 +450,123 @@ def attribute_scans(ctx):
             L = innermost_loop(f, ps[0]['block'])
             ok = ok and bool(L) and pc[0]['block'] in L[1]
         ctx.ob(['C17'], 'R-EXPR', 'DOC|joined-in-order', ok, 'Attributes::doc appends the string of every `doc = ".."` attribute in list order, separated by a newline', loc(f.span))
+
+
+# ------------------------------------------------------------------------------------------------
+def attr_assignments(f):
+    """[(attribute name literal, set of locals assigned under the branch that matched it)]"""
+    out = []
+    for s_ in f.switches():
+        c = s_['cond']
+        if c[0] == 'call' and len(c[2]) == 2 and any(isinstance(x, tuple) and x[0] == 'str' for x in c[2]) and re.search(r'::(eq|ne)$', c[1]):
+            lit = [x[1] for x in c[2] if x[0] == 'str'][0]
+            want = not c[1].endswith('::ne')
+            tg = [t for l, t in s_['edges'] if l is want]
+            if not tg:
+                continue
+            assigned = set()
+            for l, ds in f.defs().items():
+                for d in ds:
+                    if f.dominates(tg[0], d[0]) and f.pred(tg[0]) == [s_['block']]:
+                        assigned.add(l)
+            out.append((lit, assigned, s_['span']))
+    return out
+
+
+def attribute_table(ctx):
+    """which attribute name sets which piece of state (a swapped pair — `size` feeding the alignment, `cloneable` setting
+    copyable — passes every structural rule about the state itself)"""
+    P = ctx.prog
+    A = getattr(ctx, 'A', None)
+
+    def var_of(e):
+        e = strip(e)
+        return e[1] if e[0] == 'var' else None
+
+    def check(tag, props, f, roles, expect):
+        """roles: name -> local; expect: literal -> set of role names"""
+        if any(v is None for v in roles.values()):
+            ctx.fail_closed(props, 'R-TABLE', 'attr-table|' + tag, 'cannot identify the state variables %s' % [k for k, v in roles.items() if v is None], loc(f.span))
+            return
+        rl = {v: k for k, v in roles.items()}
+        got = {}
+        for lit, assigned, sp in attr_assignments(f):
+            names = frozenset(rl[l] for l in assigned if l in rl)
+            if names or lit in expect:
+                got.setdefault(lit, []).append(names)
+        ok = True
+        det = {}
+        for lit, want in expect.items():
+            g = got.get(lit, [])
+            det[lit] = [sorted(x) for x in g]
+            if frozenset(want) not in g:
+                ok = False
+        # and no other literal sets a role variable
+        for lit, g in got.items():
+            if lit not in expect and any(g_ for g_ in g):
+                ok = False
+                det[lit] = [sorted(x) for x in g]
+        ctx.ob(props, 'R-TABLE', 'attr-table|' + tag, ok, 'attribute name → state it sets: %s' % det, loc(f.span))
+
+    if A:
+        tdb = A['TDB']
+        ok_exit = [x for x in tdb.exits() if x['kind'] == 'ok_some']
+        td = None
+        isr = None
+        if ok_exit:
+            for x in walk(ok_exit[0]['expr']):
+                if isinstance(x, tuple) and x[0] == 'agg' and x[1].endswith('type_definition::TypeDefinition'):
+                    td = dict(x[2])
+                if isinstance(x, tuple) and x[0] == 'agg' and x[1].endswith('ItemStateResolved'):
+                    isr = dict(x[2])
+        if td and isr:
+            roles = {k: var_of(td[k]) for k in ('copyable', 'cloneable', 'defaultable', 'packed', 'singleton')}
+            rr = A['RR']
+            tsz = None
+            for c in tdb.calls(lambda r: r['path'] == rr.id):
+                for i, a in enumerate(c['term']['args']):
+                    if a.get('place', {}).get('ty') == 'std::option::Option<usize>':
+                        tsz = var_of(tdb.expr_of_operand(a))
+            roles['target_size'] = tsz
+            al = None
+            for d in (tdb.init_of(var_of(isr['alignment'])) if var_of(isr['alignment']) is not None else []):
+                for x in walk(d):
+                    if isinstance(x, tuple) and x[0] == 'call' and x[1].endswith('Option::<T>::or') and var_of(x[2][0]) is not None:
+                        al = var_of(x[2][0])
+            roles['align'] = al
+            check('type', ['C17', 'C02', 'C03', 'C15'], tdb, roles,
+                  {'size': {'target_size'}, 'align': {'align'}, 'singleton': {'singleton'}, 'copyable': {'copyable', 'cloneable'},
+                   'cloneable': {'cloneable'}, 'defaultable': {'defaultable'}, 'packed': {'packed'}})
+    eb = [f for f in P.fns.values() if f.kind != 'Closure' and any(t == '&grammar::EnumDefinition' for t in f.raw.get('inputs', [])) and 'ItemStateResolved' in f.raw.get('output', '')]
+    if len(eb) == 1:
+        f = eb[0]
+        ed = None
+        for x_ in f.exits():
+            if x_['kind'] == 'ok_some':
+                for x in walk(x_['expr']):
+                    if isinstance(x, tuple) and x[0] == 'agg' and x[1].endswith('EnumDefinition'):
+                        ed = dict(x[2])
+        if ed:
+            roles = {k: var_of(ed[k]) for k in ('copyable', 'cloneable', 'defaultable', 'singleton')}
+            check('enum', ['C17', 'C08', 'C15'], f, roles,
+                  {'singleton': {'singleton'}, 'copyable': {'copyable', 'cloneable'}, 'cloneable': {'cloneable'}, 'defaultable': {'defaultable'}})
+    am = [f for f in P.fns.values() if f.id.endswith('SemanticState::add_module')]
+    if am:
+        f = am[0]
+        isr = None
+        for c in f.calls(lambda r: r['path'] and r['path'].endswith('SemanticState::add_item')):
+            e = f.expr_of_operand(c['term']['args'][1])
+            if e[0] == 'agg' and dict(e[2]).get('category', ('x', ''))[1].endswith('ItemCategory::Extern'):
+                for x in walk(e):
+                    if isinstance(x, tuple) and x[0] == 'agg' and x[1].endswith('ItemStateResolved'):
+                        isr = dict(x[2])
+        if isr:
+            def src_var(e):
+                for x in walk(e):
+                    if isinstance(x, tuple) and x[0] == 'var' and f.local_ty(x[1]) == 'std::option::Option<usize>':
+                        return x[1]
+                return None
+            roles = {'size': src_var(isr['size']), 'alignment': src_var(isr['alignment'])}
+            check('extern-type', ['C02', 'C01'], f, roles, {'size': {'size'}, 'align': {'alignment'}})
+        else:
+            ctx.fail_closed(['C02'], 'R-TABLE', 'attr-table|extern-type', 'extern type registration not found', loc(f.span))
